@@ -509,7 +509,10 @@ impl ValidGrammar {
         let expr = distribute_descriptions(&mut grammar.arena, expr);
 
         let (mut user_specs, fallback_specs) = grammar.get_specializations(shell)?;
-        let builtin_specs = make_builtin_specializations(shell);
+        // <PATH> and <DIRECTORY> can be redefined in the grammar, in which case their predefined
+        // meaning gets overridden.
+        let mut builtin_specs = make_builtin_specializations(shell);
+        builtin_specs.retain(|nonterm, _| !nonterminal_definitions.contains_key(nonterm));
 
         let mut unused_nonterminals: UstrMap<HumanSpan> = nonterminal_definitions
             .iter()
